@@ -4,6 +4,7 @@ package flags
 
 import (
 	"strings"
+	"unicode/utf8"
 )
 
 const (
@@ -44,8 +45,9 @@ func stripOptionPrefix(optname string) (prefix string, name string, islong bool)
 // When there is no argument specified, nil will be returned for it.
 func splitOption(prefix string, option string, islong bool) (string, string, *string) {
 	pos := strings.Index(option, "=")
+	_, firstlen := utf8.DecodeRuneInString(option)
 
-	if (islong && pos >= 0) || (!islong && pos == 1) {
+	if (islong && pos >= 0) || (!islong && pos > 0 && pos == firstlen) {
 		rest := option[pos+1:]
 		return option[:pos], "=", &rest
 	}
